@@ -71,6 +71,12 @@ def cases(tier, seed, shard, nshards):
     if shard == 0:
         for i in range(NDOC):
             yield {"k": "concat", "d1": i, "d2": (i * 7 + seed) % NDOC}
+        # keys that collide across the parts: a later keyed block is wrapped as a duplicate (property C09) but must otherwise be
+        # parsed exactly as on its own (same inner block, same raw): D2 after itself, and D2 after garbage that contains one of its blocks
+        for i in range(NDOC):
+            yield {"k": "concat_same", "d1": 0, "d2": i}
+            for g in ('{ "', "@x{q, t = {", '}} "'):
+                yield {"k": "xdup", "d1": (i * 5 + seed) % NDOC, "d2": i, "g": g}
     idx = 0
     for seq in tokens.sequences(XALPHA, _L(tier), shard, nshards):
         idx += 1
@@ -119,7 +125,59 @@ def finish(ctx):
     sp.scan_states_flush(ctx)
 
 
+def unwrap(lib):
+    """Projection with raw in which a duplicate-key wrapper stands for the block it wraps (marked), so that 'parsed exactly as on
+    its own' can be compared when keys collide across the concatenated parts."""
+    out, wrapped = [], []
+    for b in lib.blocks:
+        if sp.block_kind(b) == "dupkey":
+            inner = b.ignore_error_block
+            pr = sp.project(inner, raw=True) if inner is not None else ["?"]
+            if b.raw != getattr(inner, "raw", None) or getattr(b, "key", None) != getattr(inner, "key", object()):
+                pr = ["wrapper-inconsistent"] + pr
+            out.append(pr)
+            wrapped.append(True)
+        else:
+            out.append(sp.project(b, raw=True))
+            wrapped.append(False)
+    return out, wrapped
+
+
+def check_dups(case, ctx):
+    d2 = docs()[1][case["d2"]]
+    p2 = parsed_alone(1, case["d2"])
+    keyed = [i for i, pr in enumerate(p2) if pr[0] in ("entry", "string")]
+    if case["k"] == "concat_same":
+        text = d2 + "\n" + d2
+        nprefix = len(p2)
+    else:
+        if not keyed:
+            return []
+        d1 = docs()[0][case["d1"]]
+        first_keyed_raw = p2[keyed[0]][-1]
+        text = d1 + "\n" + case["g"] + "\n" + first_keyed_raw + "\n" + case["g"] + "\n" + d2
+        nprefix = None
+    st, lib = sp.split(text)
+    ctx.ran()
+    ctx.mon("suffix_invariance_with_colliding_keys")
+    if st == "raise":
+        return [Violation("raised", f"C04:raise:{lib.split(':')[0]}", dict(error=lib, text=text))]
+    got, wrapped = unwrap(lib)
+    out = []
+    if got[len(got) - len(p2):] != p2:
+        out.append(Violation("suffix-changed", "C04:suffix-changed:colliding-keys", dict(text=text, got=got[-len(p2) - 1:], want=p2)))
+    elif case["k"] == "concat_same":
+        if got[:nprefix] != p2 or any(wrapped[:nprefix]):
+            out.append(Violation("prefix-changed", "C04:prefix-changed:colliding-keys", dict(text=text)))
+        elif [i for i, w in enumerate(wrapped[nprefix:]) if w] != keyed:
+            out.append(Violation("wrapping", "C04:colliding-keys:not-exactly-the-keyed-blocks-are-wrapped", dict(text=text, wrapped=wrapped, keyed=keyed)))
+    ctx.nontriv([case["k"], case["d1"], case["d2"], case.get("g")])
+    return out
+
+
 def check(case, ctx):
+    if case["k"] in ("concat_same", "xdup"):
+        return check_dups(case, ctx)
     d1 = docs()[0][case["d1"]]
     d2 = docs()[1][case["d2"]]
     p1 = parsed_alone(0, case["d1"])
